@@ -152,6 +152,10 @@ def stepCmd1 (o : FOps) (t : Tree) (toks : List String) : Option (Tree × String
 def stepCmd (o : FOps) (t : Tree) (toks : List String) : Option (Tree × String) :=
   -- ⟦withTextOutWriter⟧ (repaired): a text-out that cannot be opened is an error, nothing runs
   if toks.head? == some "cmd" ∧ kv toks "textout" == some "bad" then some (t, "err") else
+  -- a text-out that accepts the open and fails every write: the harness uses it only with
+  -- reports far larger than the output buffer, so printing fails before the final Sync —
+  -- an error, and the tree keeps its bytes
+  if toks.head? == some "cmd" ∧ kv toks "textout" == some "full" then some (t, "err (no-output)") else
   match stepCmd1 o t toks with
   | none => none
   | some (t', obs) =>
